@@ -124,21 +124,25 @@ def check_one(ctx, drv, labels, edges, iso):
             ctx.violation({**case, "m": m}, "signature cells do not sum to the number of hyperedges within the bound")
         lines.append(f"sig {m}")
         expect.append(("plain", hgxv.enc_list([int(x) for x in sig])))
-    for size in [None, 2, 3, 4, 5, 6]:
+    # every filter value on its own: size=k and order=k-1 must both mean "total size k" (order=0 included)
+    filters = [(None, {})] + [(k, {"size": k}) for k in range(1, 8)] + [(k + 1, {"order": k}) for k in range(0, 7)]
+    for size, kw in filters:
         for which, seqf, onef, side in (("indeg", in_degree_sequence, in_degree, 0), ("outdeg", out_degree_sequence, out_degree, 1)):
-            seq = seqf(h, size=size)
-            if size is not None:
-                seq_o = seqf(h, order=size - 1)
-                if seq_o != seq:
-                    ctx.violation({**case, "size": size}, f"{which} sequence with order={size-1} differs from size={size}")
+            try:
+                seq = seqf(h, **kw)
+                ones = {x: onef(h, x, **kw) for x in nodes}
+            except Exception as ex:  # the property says these calls return counts
+                ctx.violation({**case, "filter": kw}, f"{which} with filter {kw} raised {type(ex).__name__}: {ex}")
+                continue
             if sorted(seq, key=repr) != sorted(nodes, key=repr) or len(seq) != len(nodes):
-                ctx.violation({**case, "size": size}, f"{which} sequence does not list every node once")
+                ctx.violation({**case, "filter": kw}, f"{which} sequence does not list every node once")
             for x in nodes:
                 d = sum(1 for e in E if x in e[side] and (size is None or len(e[0]) + len(e[1]) == size))
-                if seq.get(x) != d or onef(h, x, size=size) != d:
-                    ctx.violation({**case, "size": size, "node": x}, f"{which}({x!r}, size={size}) = {seq.get(x)}, definition gives {d}")
+                if seq.get(x) != d or ones[x] != d:
+                    ctx.violation({**case, "filter": kw, "node": x},
+                                  f"{which}({x!r}, {kw}) = {seq.get(x)} / {ones[x]}, definition gives {d}")
             lines.append(f"{which} {-1 if size is None else size}")
-            expect.append(("plain", ",".join(f"{rank[x]}:{seq[x]}" for x in nodes) if nodes else "-"))
+            expect.append(("plain", ",".join(f"{rank[x]}:{seq.get(x)}" for x in nodes) if nodes else "-"))
     ctx.case(key, nontrivial, sample=case)
     if drv is None:
         return
